@@ -225,6 +225,16 @@ func runProperty(pr *property, tier, repo, evPath, knownPath string, seed int, n
 			}
 		}
 	}
+	if tier == "thorough" && !noEvidence && len(viol) == 0 {
+		bt := runBenign(pr.ID, repo, filepath.Join(filepath.Dir(mutdir), "benign"))
+		selftest["behaviour_preserving_variants"] = map[string]interface{}{"variants": bt.Total, "silent": bt.Killed, "skipped": bt.Skipped, "false_alarms": bt.Failed, "detail": bt.Lines}
+		if bt.Failed > 0 {
+			selfFailed = true
+			for _, l := range bt.FailLines {
+				fmt.Println("SELFTEST-FAILED " + l)
+			}
+		}
+	}
 	if len(viol) > 0 {
 		fmt.Printf("VIOLATION property=%s replay=%s\n", pr.ID, repPath)
 	}
